@@ -375,3 +375,71 @@ func VerifH10f() {
 		vReach("negative-size-on-the-exported-field")
 	}
 }
+
+// ---------------------------------------------------------------------------
+// H03s — the transcript is a function of the byte stream, not of how it is
+// cut into reads (C03, session level): one stream — a startup packet and K
+// messages drawn from {Query, Parse, Bind, Execute, Sync, Terminate, a message
+// with a symbolic type byte and body} — is served twice by equally configured
+// servers: once with every Read returning all that is available, once with
+// every Read returning CHUNK bytes (1 by default: one byte per read, so every
+// header and every message is split). Output and callback trace must be
+// identical. In particular what follows a Terminate in the same
+// segment is treated like what follows it in a later one.
+// ---------------------------------------------------------------------------
+func VerifH03s() {
+	K := vParam("K", 2)
+	stream := vStartup(vKV([]byte("user"), []byte("u")))
+	sawX := false
+	for k := 0; k < K; k++ {
+		switch vChoose(7) {
+		case 0:
+			stream = vCat(stream, vMsgBytes('Q', vCStr([]byte{'a' + nondetByte()%2})))
+		case 1:
+			stream = vCat(stream, vMsgBytes('P', vCat(vCStr(nil), vCStr([]byte("q")), vU16(0))))
+		case 2:
+			stream = vCat(stream, vMsgBytes('B', vCat(vCStr(nil), vCStr(nil), vU16(0), vU16(0), vU16(0))))
+		case 3:
+			stream = vCat(stream, vMsgBytes('E', vCat(vCStr(nil), vU32(0))))
+		case 4:
+			stream = vCat(stream, vMsgBytes('S', nil))
+		case 5:
+			stream = vCat(stream, vMsgBytes('X', nil))
+			if k < K-1 {
+				sawX = true
+			}
+		default:
+			typ := nondetByte()
+			vAssume(typ != 'P') // (see H04a: a complete Parse's 16-bit count)
+			stream = vCat(stream, vMsgBytes(typ, nondetBytes(vChoose(3))))
+		}
+	}
+	type run struct {
+		w    *vWorld
+		conn *vConn
+	}
+	serve := func(chunk int) run {
+		w := &vWorld{parseMenu: -2, execMenu: 1}
+		srv, err := NewServer(w.parse, MessageBufferSize(64))
+		vAssert("newserver-ok", err == nil)
+		c := vNewConn(stream)
+		c.in.chunk = chunk
+		srv.serve(context.Background(), c) //nolint
+		return run{w, c}
+	}
+	whole, cut := serve(0), serve(vParam("CHUNK", 1))
+	vAssert("same-output-for-every-segmentation", vSameTranscript(whole.conn.out, cut.conn.out))
+	vAssert("same-number-of-callbacks", len(whole.w.events) == len(cut.w.events))
+	for i := range whole.w.events {
+		if i < len(cut.w.events) {
+			a, b := whole.w.events[i], cut.w.events[i]
+			vAssert("same-callbacks", a.kind == b.kind && vEqBytes(a.query, b.query))
+		}
+	}
+	if sawX {
+		vReach("terminate-followed-by-more")
+	}
+	if len(whole.w.events) >= 2 {
+		vReach("two-callbacks")
+	}
+}
